@@ -19,7 +19,7 @@ ASSUMPTIONS = [
     "empty directories are not tracked (as the statement says) and are not expected back",
 ]
 MONITORS = "independent walk of the fresh location; reloaded Tree listing vs independent listing; reported nfiles/size vs data"
-REQUIRED_COUNTERS = ["roundtrips", "files_compared", "route/object", "route/index-explicit", "route/index-lazy", "single_file_cases",
+REQUIRED_COUNTERS = ["restaged_after_checkout", "roundtrips", "files_compared", "route/object", "route/index-explicit", "route/index-lazy", "single_file_cases",
                      "store/local", "store/base", "link/hardlink", "link/symlink", "link/copy", "link/default", "with_state", "listing_reloads"]
 
 
@@ -155,6 +155,15 @@ def run_shard(ctx):
                 kind = "missing-path" if missing else "extra-path" if extra else "wrong-bytes"
                 res.violation(f"roundtrip-differs/{kind}/{route}", f"checked-out data differs: missing={missing[:2]} extra={extra[:2]} wrong={wrong[:2]}",
                               case=case, detail=cfgd)
+            if got == exp and rng.random() < 0.6:
+                # second leg: staging what was checked out (through the same hash-state cache) gives the same object again
+                from dvc_data.hashfile.build import build as _build
+
+                res.count("restaged_after_checkout")
+                _s2, m2, obj2 = _build(odb, out, fs, "md5", dry_run=True)
+                if obj2.hash_info.value != obj.hash_info.value:
+                    res.violation("restaging-the-checkout-gives-another-object" + ("/with-state" if use_state else ""),
+                                  f"stage(checkout(x)) = {obj2.hash_info.value}, x = {obj.hash_info.value}", case=case, detail=cfgd)
             if not single:
                 # no path invented as a directory either
                 inv = sorted(dk for dk in walk_dirs(out) if dk not in indexlab.dirs_of(files))
